@@ -650,6 +650,12 @@ def sp_maze_equal(interp, st, args, kwargs, node):
 
 def sp_rgb_is(interp, st, args, kwargs, node):
     """rgb_is(img, p, q, colour): the pixel (p, q) of an (H, W, 3) image has the given colour triple"""
+    if len(args) == 3:
+        # rgb_is(row, q, colour): one row of an image, shape (W, 3)
+        img, q, colour = args
+        if isinstance(colour, Arr):
+            colour = tuple(colour.flat)
+        return b_and(*[M.s_cmp(ast.Eq(), M.getitem(interp, st, img, (q, c), node), colour[c]) for c in range(3)])
     img, p, q, colour = args
     if isinstance(colour, Arr):
         colour = tuple(colour.flat)
